@@ -165,7 +165,8 @@ static void init_template(void)
 struct sdesc { int frame; uint8_t cb; int16_t prio; uint8_t p1, p2; uint16_t flags; };
 struct shape { int nframes, nitems, trailing_endframe; uint16_t p3; struct sdesc d[8]; };
 #define DT (TDMA_IFLG_TPU | TDMA_IFLG_DSP)
-static const struct shape shapes[5] = {
+#define NSHAPES 7
+static const struct shape shapes[NSHAPES] = {
 	/* 0: one frame, one item */
 	{ 1, 1, 0, 0xB0A1, { { 0, CB_LOG1, 0, 0x21, 0x01, 0 } } },
 	/* 1: one frame, three items, descending then tie */
@@ -177,14 +178,19 @@ static const struct shape shapes[5] = {
 	/* 4: three frames 3 + 2 + 1 */
 	{ 3, 6, 1, 0xB4A5, { { 0, CB_LOG1, 3, 0x2B, 0x0B, 0 }, { 0, CB_LOG2, 1, 0x2C, 0x0C, 0 }, { 0, CB_LOG1, 2, 0x2D, 0x0D, 0 },
 			     { 1, CB_LOG2, 0, 0x2E, 0x0E, DT }, { 1, CB_LOG1, 0, 0x2F, 0x0F, 0 }, { 2, CB_LOG2, -7, 0x30, 0x10, 0 } } },
+	/* 5: four frames, one item each (like the firmware's burst sets), trailing end-of-frame marker */
+	{ 4, 4, 1, 0xB5A6, { { 0, CB_LOG1, 0, 0x31, 0x11, DT }, { 1, CB_LOG2, 0, 0x32, 0x12, 0 }, { 2, CB_LOG1, 0, 0x33, 0x13, 0 }, { 3, CB_LOG2, 0, 0x34, 0x14, DT } } },
+	/* 6: synthetic six-frame set, 2+1+1+1+1+2 items (sets 5 and 6 are used by the set sweep only) */
+	{ 6, 8, 0, 0xB6A7, { { 0, CB_LOG1, 1, 0x35, 0x15, 0 }, { 0, CB_LOG2, -1, 0x36, 0x16, 0 }, { 1, CB_LOG1, 0, 0x37, 0x17, 0 }, { 2, CB_LOG2, 0, 0x38, 0x18, DT },
+			     { 3, CB_LOG1, 0, 0x39, 0x19, 0 }, { 4, CB_LOG2, 0, 0x3A, 0x1A, 0 }, { 5, CB_LOG1, 9, 0x3B, 0x1B, 0 }, { 5, CB_LOG2, 9, 0x3C, 0x1C, DT } } },
 };
 /* the array handed to tdma_schedule_set() is generated from the description with the header's macros */
-static struct tdma_sched_item setarr[5][20];
-static int set_j[5];           /* number of end-of-frame markers */
+static struct tdma_sched_item setarr[NSHAPES][20];
+static int set_j[NSHAPES];           /* number of end-of-frame markers */
 static void build_sets(void)
 {
 	int s, i;
-	for (s = 0; s < 5; s++) {
+	for (s = 0; s < NSHAPES; s++) {
 		const struct shape *sh = &shapes[s];
 		int n = 0, f = 0;
 		for (i = 0; i < sh->nitems; i++) {
@@ -235,10 +241,17 @@ static void ev_resched(int off, int N, int pi)
 	ref_add(now + off, intern(CB_RESCHED, p1, p2, p3, PRIOS[pi], 0));
 }
 
+static unsigned long n_set_nonfirst_slot24, n_set_wrapping;   /* set calls with a non-first frame in ring slot 24 / crossing 24->0 */
 static void ev_set(int off, int s)
 {
 	const struct shape *sh = &shapes[s];
 	int i;
+	{
+		int first = (SCHED.cur_bucket + off) % NB, hit = 0;
+		for (i = 1; i < sh->nframes; i++) hit |= (first + i) % NB == NB - 1;
+		n_set_nonfirst_slot24 += hit;
+		n_set_wrapping += first + sh->nframes - 1 >= NB;
+	}
 	nlog = 0;
 	int rc = tdma_schedule_set(off, setarr[s], sh->p3);
 	check_no_calls("tdma_schedule_set");
@@ -362,21 +375,30 @@ static int K, MAXREAL, RECSZ;
 #define REC_HDR 3
 
 /* serialise the real scheduler + reference; returns 0 if the real state is outside the representable space */
+/* plausibility of the real structure, independent of the state encoding (also used by replay):
+ * ring position inside the ring, no bucket over-full, not more live items than MAXREAL (= K + 4) */
+NOSAN static int scan_real(void)
+{
+	int b, n = 0;
+	if (SCHED.cur_bucket >= NB) { viol("C08:ring-position", "cur_bucket = %u", SCHED.cur_bucket); return 0; }
+	for (b = 0; b < NB; b++) {
+		if (SCHED.bucket[b].num_items > NCB) { viol("C08:num-items-corrupt", "bucket %d num_items = %u", b, SCHED.bucket[b].num_items); return 0; }
+		n += SCHED.bucket[b].num_items;
+	}
+	if (n > MAXREAL) { viol("C08:items-multiply", "scheduler holds %d live items with %d scheduled (bound: %d outstanding)", n, nref, MAXREAL - 4); return 0; }
+	return 1;
+}
+
 NOSAN static int serialise(uint8_t *rec)
 {
 	int b, s, n = 0, i, j;
+	if (!scan_real()) return 0;
 	memset(rec, 0xFF, RECSZ);
-	if (SCHED.cur_bucket >= NB) { viol("C08:ring-position", "cur_bucket = %u", SCHED.cur_bucket); return 0; }
 	rec[0] = SCHED.cur_bucket;
 	for (b = 0; b < NB; b++) {
 		struct tdma_sched_bucket *bk = &SCHED.bucket[b];
-		if (bk->num_items > NCB) { viol("C08:num-items-corrupt", "bucket %d num_items = %u", b, bk->num_items); return 0; }
 		for (s = 0; s < bk->num_items; s++) {
 			struct tdma_sched_item *it = &bk->item[s];
-			if (n >= MAXREAL) {
-				viol("C08:items-multiply", "scheduler holds more than %d live items with %d scheduled", MAXREAL, nref);
-				return 0;
-			}
 			rec[REC_HDR + 2 * n] = b * NCB + s;
 			rec[REC_HDR + 2 * n + 1] = intern(cbid(it->cb), it->p1, it->p2, it->p3, it->prio, it->flags);
 			n++;
@@ -462,7 +484,7 @@ static int ev_parse(const char *tok, struct event *e)
 	e->kind = tok[0]; e->a = e->b = e->c = 0;
 	switch (tok[0]) {
 	case 's': if (sscanf(tok + 1, "%d.%d", &e->a, &e->b) != 2 || e->b < 0 || e->b > 7 || e->a < 0 || e->a > 255) return 0; return 1;
-	case 'S': if (sscanf(tok + 1, "%d.%d", &e->a, &e->b) != 2 || e->b < 0 || e->b > 4 || e->a < 0 || e->a > 255) return 0; return 1;
+	case 'S': if (sscanf(tok + 1, "%d.%d", &e->a, &e->b) != 2 || e->b < 0 || e->b >= NSHAPES || e->a < 0 || e->a > 255) return 0; return 1;
 	case 'r': if (sscanf(tok + 1, "%d.%d.%d", &e->a, &e->b, &e->c) != 3 || e->c < 0 || e->c > 7 || e->b < 0 || e->b > 255) return 0; return 1;
 	case 't': case 'x': case 'R': return tok[1] == 0;
 	}
@@ -617,9 +639,9 @@ NOSAN static int do_bfs(int argc, char **argv)
 	fprintf(res, "{\"states\": %u, \"transitions\": %lu, \"bad_transitions\": %lu, \"depth\": %d, \"frontier_exhausted\": %s, "
 		"\"alphabet\": %d, \"K\": %d, \"max_outstanding\": %d, \"ring_positions\": %d, \"min_states_per_position\": %d, "
 		"\"execute_calls\": %lu, \"items_due_at_execute\": %lu, \"schedule_calls\": %lu, \"set_calls\": %lu, \"resets\": %lu, "
-		"\"revisits\": %lu, \"item_types\": %d, %s, \"violations\": %lu}\n",
+		"\"revisits\": %lu, \"item_types\": %d, \"set_calls_nonfirst_frame_on_slot24\": %lu, \"set_calls_wrapping_ring\": %lu, %s, \"violations\": %lu}\n",
 		nstates, ntrans, nbad, maxdepth, hitcap ? "false" : "true", nalpha, K, max_out, npos, minpos,
-		nexec_calls, nitems_run, nsched_ok, nsets_ok, nreset, ndup, ntypes, hist_json(), nviol);
+		nexec_calls, nitems_run, nsched_ok, nsets_ok, nreset, ndup, ntypes, n_set_nonfirst_slot24, n_set_wrapping, hist_json(), nviol);
 	fflush(res);
 	return nviol ? 1 : 0;
 }
@@ -627,24 +649,27 @@ NOSAN static int do_bfs(int argc, char **argv)
 /* ------------------------------------------------------------------ replay of one token list */
 static const char *replay_str;
 static const char *replay_trace(void) { return replay_str; }
-static int do_replay(const char *s)
+static int do_replay(const char *s, int k)
 {
 	char *dup = strdup(s), *tok;
 	struct event e;
 	int n = 0;
 	replay_str = s; trace_fn = replay_trace;
-	K = 200; MAXREAL = 200;
+	K = 200; MAXREAL = k > 0 ? k + 4 : 200;   /* k: the bound of the search that produced the case */
 	memcpy(&SCHED, &tmpl, sizeof(tmpl));   /* live content as after boot: nothing scheduled, position 0 */
 	now = 1000; nref = 0;
 	for (tok = strtok(dup, ","); tok; tok = strtok(NULL, ",")) {
 		if (!ev_parse(tok, &e)) { fprintf(res, "{\"harness_error\": \"bad token %s\"}\n", tok); return 3; }
 		if (!ev_enabled(&e)) { fprintf(res, "{\"harness_error\": \"event %s outside the property's domain\"}\n", tok); return 3; }
+		violated = 0;
 		ev_apply(&e);
 		n++;
+		if (!violated) scan_real();
+		if (violated) break;       /* as in the search: a violating transition is not continued */
 		/* dead-slot discipline as in the search: refill storage beyond num_items */
 		int b, sl;
 		for (b = 0; b < NB; b++)
-			for (sl = SCHED.bucket[b].num_items <= NCB ? SCHED.bucket[b].num_items : NCB; sl < NCB; sl++)
+			for (sl = SCHED.bucket[b].num_items; sl < NCB; sl++)
 				SCHED.bucket[b].item[sl] = tmpl.bucket[b].item[sl];
 	}
 	fprintf(res, "{\"events\": %d, \"violations\": %lu}\n", n, nviol);
@@ -652,7 +677,7 @@ static int do_replay(const char *s)
 }
 
 /* ------------------------------------------------------------------ capacity sweep */
-static char casebuf[128];
+static char casebuf[400];
 static const char *case_trace(void) { return casebuf; }
 
 static void goto_position(int pos)
@@ -774,6 +799,35 @@ static int do_order(int n, unsigned long lo, unsigned long hi)
 	return nviol ? 1 : 0;
 }
 
+/* ------------------------------------------------------------------ set sweep */
+/* every ring position x every offset x every set shape (1..6 frames) on an otherwise empty scheduler,
+ * optionally with a single item in every frame as a witness, then 30 frame steps: each item must run
+ * exactly in (first frame + k), nothing else may run.  Cases are event sequences (replayable as such). */
+static int do_setsweep(int lo, int hi)
+{
+	unsigned long ncases = 0, nskipped = 0;
+	int pos, off, sh, var, i;
+	trace_fn = case_trace;
+	K = 250; MAXREAL = 250;
+	for (pos = lo; pos < hi; pos++) for (off = 0; off < NB; off++) for (sh = 0; sh < NSHAPES; sh++) for (var = 0; var < 2; var++) {
+		char *p = casebuf;
+		if (off + shapes[sh].nframes - 1 >= NB) { nskipped++; continue; }   /* last frame must be < 25 ahead */
+		violated = 0;
+		memcpy(&SCHED, &tmpl, sizeof(tmpl));
+		now = 1000; nref = 0; nlog = 0; log_lost = 0;
+		for (i = 0; i < pos; i++) { ev_exec(); ev_advance(); p += sprintf(p, "t,"); }
+		if (var) for (i = 0; i < NB; i += 4) { ev_schedule(i, (i + pos) % 8); p += sprintf(p, "s%d.%d,", i, (i + pos) % 8); }
+		p += sprintf(p, "S%d.%d", off, sh);
+		ev_set(off, sh);
+		for (i = 0; i < 30 && !violated; i++) { p += sprintf(p, ",t"); ev_exec(); ev_advance(); }
+		if (!violated && nref) viol("C08:not-executed", "%d item(s) of the set never ran within 30 frames", nref);
+		ncases++;
+	}
+	fprintf(res, "{\"setsweep_cases\": %lu, \"setsweep_skipped_beyond_depth\": %lu, \"set_calls_nonfirst_frame_on_slot24\": %lu, \"set_calls_wrapping_ring\": %lu, %s, \"violations\": %lu}\n",
+		ncases, nskipped, n_set_nonfirst_slot24, n_set_wrapping, hist_json(), nviol);
+	return nviol ? 1 : 0;
+}
+
 int main(int argc, char **argv)
 {
 	int fd = dup(1);
@@ -784,7 +838,8 @@ int main(int argc, char **argv)
 	build_sets();
 	if (argc < 2) return 2;
 	if (!strcmp(argv[1], "bfs")) return do_bfs(argc, argv);
-	if (!strcmp(argv[1], "replay") && argc >= 3) return do_replay(argv[2]);
+	if (!strcmp(argv[1], "replay") && argc >= 3) return do_replay(argv[2], argc >= 4 ? atoi(argv[3]) : 0);
+	if (!strcmp(argv[1], "setsweep") && argc >= 4) return do_setsweep(atoi(argv[2]), atoi(argv[3]));
 	if (!strcmp(argv[1], "capacity") && argc >= 4) return do_capacity(atoi(argv[2]), atoi(argv[3]));
 	if (!strcmp(argv[1], "order") && argc >= 5) return do_order(atoi(argv[2]), strtoul(argv[3], 0, 0), strtoul(argv[4], 0, 0));
 	return 2;
